@@ -151,7 +151,9 @@ CLAIMS = {
          "Lean 4 theorems (well-scoped bodies, Copy-predicate coverage; with C11/C19) + compile correspondence against rustc over generated definitions"),
  "C11": ("Theorems auto_preds_shape / auto_preds_only_collected (automatic mode appends one `FieldTy: Trait` per collected type plus the "
          "supertraits on Self, nothing else), struct_body_delegates_exactly + delegated_types_and_operands (the collected types are exactly the "
-         "fields on which the generated PartialEq body calls the trait's own method — two independently written parts linked), "
+         "fields on which the generated PartialEq body calls the trait's own method — two independently written parts linked; the same link for "
+         "enum arms eq_tuple_arm_/eq_named_arm_delegates_exactly, for Hash hash_struct_body_/hash_tuple_arm_/hash_named_arm_delegates_exactly and "
+         "for Clone clone_struct_body_delegates_exactly incl. clone_from), "
          "ignored_and_method_fields_not_bound, companion_same_predicates / companion_applies_iff (Eq with PartialEq, Copy with Clone share the "
          "primary's predicates). Tie: generic definitions x all traits x ignore/method/expression choices expanded in-process; every real impl's "
          "appended predicates compared with the model's (which handler collects which field types, supertraits, companions).",
